@@ -2,6 +2,7 @@ package props
 
 import (
 	"bytes"
+	"compress/gzip"
 	"fmt"
 	"io"
 	"math/rand"
@@ -49,6 +50,7 @@ type c11Cfg struct {
 	MaxRows    int64
 	Bloom      map[string]uint // leaf path -> bits per value
 	DeferBloom bool            // DeferBloomFiltersWithBuffers: filters are written at the end of the file
+	BloomGzip  bool            // BloomFilterCompression(gzip): the filter bitsets are stored gzip-compressed
 	Enc        bool                 // the files written under this configuration are encrypted (WithEncryption)
 	Dec        []parquet.FileOption // what OpenFile needs to read them
 	Desc       string
@@ -183,7 +185,7 @@ func c11RandCfg(r *rand.Rand, schema *parquet.Schema) *c11Cfg {
 
 // c11CfgLike returns B as a copy of A (so that the verbatim path is eligible) with a few axes re-drawn.
 func c11CfgLike(r *rand.Rand, a *c11Cfg, schema *parquet.Schema) *c11Cfg {
-	c := &c11Cfg{Base: a.Base, Opts: append([]parquet.WriterOption{}, a.Opts...), Stats: a.Stats, IndexLimit: a.IndexLimit, MaxRows: a.MaxRows, Bloom: a.Bloom, DeferBloom: a.DeferBloom, Enc: a.Enc, Dec: a.Dec}
+	c := &c11Cfg{Base: a.Base, Opts: append([]parquet.WriterOption{}, a.Opts...), Stats: a.Stats, IndexLimit: a.IndexLimit, MaxRows: a.MaxRows, Bloom: a.Bloom, DeferBloom: a.DeferBloom, BloomGzip: a.BloomGzip, Enc: a.Enc, Dec: a.Dec}
 	var extra []string
 	switch r.Intn(6) {
 	case 0:
@@ -208,6 +210,16 @@ func c11CfgLike(r *rand.Rand, a *c11Cfg, schema *parquet.Schema) *c11Cfg {
 	case 4:
 		c.Opts = append(c.Opts, parquet.PageBufferSize(1+r.Intn(300)))
 		extra = append(extra, "pagebuf:=small")
+	case 5: // (no draw) the codec of the bloom filter sections flips; nothing else differs
+		if len(a.Bloom) > 0 {
+			c.BloomGzip = !a.BloomGzip
+			if c.BloomGzip {
+				c.Opts = append(c.Opts, parquet.BloomFilterCompression(&parquet.Gzip))
+			} else {
+				c.Opts = append(c.Opts, parquet.BloomFilterCompression(&parquet.Uncompressed))
+			}
+			extra = append(extra, fmt.Sprintf("bloomgzip:=%v", c.BloomGzip))
+		}
 	}
 	c.Desc = a.Desc + " | like-A " + strings.Join(extra, " ")
 	return c
@@ -231,6 +243,9 @@ type c11Chunk struct {
 	BloomOff             int64
 	BloomLen             int32
 	BloomHdr             *[4]int // numBytes, splitBlock, xxhash, uncompressed; nil = absent / undecodable
+	BloomGzip            bool    // the header announces a gzip-compressed bitset
+	BloomBits            int     // bytes of the bitset (after decompression); -1 = unknown
+	DictLen              int64   // num_values of the dictionary page header; -1 = no dictionary page / unknown
 	NumValues, NullCount int64
 	Rows                 int64
 	HasDict              bool
@@ -281,7 +296,14 @@ func c11FileInfo(file []byte, f *parquet.File, encrypted ...bool) (out [][]c11Ch
 				DictOff: m.DictionaryPageOffset, DataOff: m.DataPageOffset, TotalC: m.TotalCompressedSize, TotalU: m.TotalUncompressedSize,
 				// an empty byte string bound is present (non-nil, length 0); absent bounds decode as nil
 				HasMinMax: m.Statistics.MinValue != nil || m.Statistics.MaxValue != nil,
-				HasDep:    m.Statistics.Min != nil || m.Statistics.Max != nil}
+				HasDep:    m.Statistics.Min != nil || m.Statistics.Max != nil, BloomBits: -1, DictLen: -1}
+			if parsePages && c.DictOff > 0 && c.DictOff < int64(len(file)) {
+				var h format.PageHeader
+				p := thrift.CompactProtocol{}
+				if e := thrift.NewDecoder(p.NewReader(bytes.NewReader(file[c.DictOff:]))).Decode(&h); e == nil && h.Type == format.DictionaryPage {
+					c.DictLen = int64(h.DictionaryPageHeader.V.NumValues)
+				}
+			}
 			for _, s := range m.EncodingStats {
 				c.EncStats = append(c.EncStats, [3]int{int(s.PageType), int(s.Encoding), int(s.Count)})
 			}
@@ -293,6 +315,21 @@ func c11FileInfo(file []byte, f *parquet.File, encrypted ...bool) (out [][]c11Ch
 					_, xx := h.Hash.Value.(*format.XxHash)
 					_, unc := h.Compression.Value.(*format.BloomFilterUncompressed)
 					c.BloomHdr = &[4]int{int(h.NumBytes), b2i(split), b2i(xx), b2i(unc)}
+					_, c.BloomGzip = h.Compression.Value.(*format.BloomFilterGzip)
+					// the section is the header followed by NumBytes bytes of (compressed) bitset
+					if nb := int64(h.NumBytes); nb >= 0 && nb <= int64(c.BloomLen) {
+						end := c.BloomOff + int64(c.BloomLen)
+						switch body := file[end-nb : end]; {
+						case unc:
+							c.BloomBits = len(body)
+						case c.BloomGzip:
+							if zr, e := gzip.NewReader(bytes.NewReader(body)); e == nil {
+								if n, e := io.Copy(io.Discard, zr); e == nil {
+									c.BloomBits = int(n)
+								}
+							}
+						}
+					}
 				}
 			}
 			if k < len(cis) {
@@ -872,6 +909,7 @@ type c11Case struct {
 	keyCol    int // column of the sort key in the destination schema (-1 = none)
 	prefix    int // number of rows (the first rows of Rows()) the destination already buffers
 	reuse     bool // the destination writer is Reset and handed the same input once more
+	falseCounts bool // a harness wrapper in the source drops rows from Rows(): NumValues() of its chunks is false
 }
 
 // settings oracle: `got` (written through WriteRowGroup) must honour B's settings as far as `ref`
@@ -936,6 +974,70 @@ func c11Settings(b *c11Cfg, got, ref [][]c11Chunk, ncol int) (aspects []string, 
 			if len(rg) > 0 && rg[0].Rows > b.MaxRows {
 				aspects = append(aspects, fmt.Sprintf("row-group-size: row group %d has %d rows, MaxRowsPerRowGroup %d", gi, rg[0].Rows, b.MaxRows))
 				break
+			}
+		}
+	}
+	return
+}
+
+// c11BloomSettings: the bloom filter settings of the destination (bits per value of the column's
+// SplitBlockFilter, BloomFilterCompression) must be honoured by every filter of `got` as far as the
+// file written row by row honours them. (i) The bitset of a chunk's filter has the size the filter
+// column prescribes (BloomFilterColumn.Size) for the number of values it is built from: the entries
+// of the dictionary when every data page is dictionary-encoded, the values of the chunk otherwise;
+// a size the row path gives a chunk of the same shape is accepted as well. (ii) The bitset is stored
+// under the configured filter codec (the header says which). Chunks whose filter header cannot be
+// parsed from the raw bytes (encrypted files) are not judged. One aspect per column and clause.
+// sizes = false: clause (i) is not judged (a harness wrapper of the source drops rows from Rows()
+// while its chunks go on announcing them: the writer is told a false number of values).
+func c11BloomSettings(b *c11Cfg, paths [][]string, got, ref [][]c11Chunk, sizes bool) (aspects []string) {
+	type shape struct {
+		nv, dict int64
+		bits     int
+	}
+	for ci, path := range paths {
+		bpv, has := b.Bloom[strings.Join(path, ".")]
+		if !has {
+			continue
+		}
+		filter := parquet.SplitBlockFilter(bpv, path...)
+		// a dictionary-encoded chunk: the entries of the dictionary; once the writer has given the
+		// dictionary up (which the file shows only if a PLAIN page followed) the values of the chunk
+		builtFrom := func(c *c11Chunk) (n int64, what string) {
+			if c.HasDict && c.DictLen >= 0 {
+				return c.DictLen, "dictionary entries"
+			}
+			return c.NumValues, "values"
+		}
+		prescribed := func(c *c11Chunk) bool {
+			n, _ := builtFrom(c)
+			return c.BloomBits == filter.Size(n) || (c.HasDict && c.BloomBits == filter.Size(c.NumValues))
+		}
+		refShapes, refGzip := map[shape]bool{}, map[bool]bool{}
+		for _, rg := range ref {
+			if ci < len(rg) && rg[ci].BloomHdr != nil {
+				c := &rg[ci]
+				n, _ := builtFrom(c)
+				refShapes[shape{c.NumValues, n, c.BloomBits}] = true
+				refGzip[c.BloomGzip] = true
+			}
+		}
+		sizeDone, compDone := false, false
+		for gi, rg := range got {
+			if ci >= len(rg) || rg[ci].BloomHdr == nil {
+				continue
+			}
+			c := &rg[ci]
+			n, what := builtFrom(c)
+			if want := filter.Size(n); sizes && !sizeDone && !prescribed(c) && !refShapes[shape{c.NumValues, n, c.BloomBits}] {
+				sizeDone = true
+				aspects = append(aspects, fmt.Sprintf("bloom-size col%d (%s): row group %d: bitset of %d bytes for %d %s (chunk of %d values), %d bits per value prescribe %d bytes; no chunk of this shape has such a filter on the row path",
+					ci, strings.Join(path, "."), gi, c.BloomBits, n, what, c.NumValues, bpv, want))
+			}
+			if !compDone && c.BloomGzip != b.BloomGzip && !refGzip[c.BloomGzip] {
+				compDone = true
+				aspects = append(aspects, fmt.Sprintf("bloom-compression col%d (%s): row group %d: the filter header announces gzip=%v, the destination's BloomFilterCompression is gzip=%v (row path: gzip {%s})",
+					ci, strings.Join(path, "."), gi, c.BloomGzip, b.BloomGzip, keys(refGzip)))
 			}
 		}
 	}
@@ -1552,6 +1654,10 @@ func c11Run(ctx *core.Ctx, env *c11Env, d interface {
 		}
 		ncol = len(c.schema.Columns())
 		aspects, stat := c11Settings(c.b, outInfo, refInfo, ncol)
+		if len(c.b.Bloom) > 0 {
+			aspects = append(aspects, c11BloomSettings(c.b, c.schema.Columns(), outInfo, refInfo, !c.falseCounts)...)
+			ctx.Hist("bloom-settings-checked", fmt.Sprintf("%s gzip=%v", pathSig, c.b.BloomGzip))
+		}
 		extra := map[string]any{"copied_chunks": out.copyN, "reencoded_row_groups": out.reencN, "output_row_groups": rowGroupSizes(outInfo)}
 		if e := c11PageErr(outInfo); e != "" {
 			// the settings oracle needs every page header; the L2 comparison below still runs
@@ -1560,6 +1666,9 @@ func c11Run(ctx *core.Ctx, env *c11Env, d interface {
 		}
 		for _, a := range aspects {
 			extra["violated"] = a
+			if strings.HasPrefix(a, "bloom-") {
+				ctx.Hist("bloom-setting-not-honoured", aspectClass(a)+" kind="+c.kind+" "+pathSig)
+			}
 			ctx.Fail("L1", "setting-not-honoured "+aspectClass(a)+" "+pathSig, "the destination writer's setting is not honoured by WriteRowGroup: "+a, detail(extra))
 		}
 		if len(stat) > 0 {
@@ -1772,6 +1881,7 @@ var c11KindNames = []string{"file", "buffer", "range", "multi", "merged-unsorted
 type c11BuildOpt struct {
 	tweakA func(a *c11Cfg)                       // applied to the source configuration before any source is written
 	makeB  func(r *rand.Rand, a *c11Cfg) *c11Cfg // destination configuration
+	views  bool                                  // kind multi: half of the file row groups are handed over as two row-range views
 }
 
 func c11Build(ctx *core.Ctx, env *c11Env, e *gen.Entry, r *rand.Rand, kind string, n int, opts ...*c11BuildOpt) *c11Case {
@@ -1855,6 +1965,7 @@ func c11Build(ctx *core.Ctx, env *c11Env, e *gen.Entry, r *rand.Rand, kind strin
 		if kind == "foreign-skip" {
 			for _, s := range c.srcs {
 				s.rg, s.rows = c11ForeignSkip{s.rg}, nil
+				c.falseCounts = true
 			}
 		}
 	case "buffer":
@@ -1924,7 +2035,7 @@ func c11Build(ctx *core.Ctx, env *c11Env, e *gen.Entry, r *rand.Rand, kind strin
 				return fail("source-write", nil)
 			}
 			for j, rg := range cf.rgs {
-				if kind == "multi" && rg.NumRows() >= 2 && r.Intn(4) == 0 {
+				if kind == "multi" && rg.NumRows() >= 2 && (r.Intn(4) == 0 || (opt != nil && opt.views && r.Intn(2) == 0)) {
 					k := 1 + r.Int63n(rg.NumRows()-1)
 					children = append(children, parquet.VerifNewRowRangeRowGroup(rg, 0, k), parquet.VerifNewRowRangeRowGroup(rg, k, rg.NumRows()-k))
 				} else if kind == "multi" && r.Intn(6) == 0 {
@@ -1952,6 +2063,7 @@ func c11Build(ctx *core.Ctx, env *c11Env, e *gen.Entry, r *rand.Rand, kind strin
 			w := r.Intn(k)
 			plain := (w + 1) % k
 			children[w] = c11ForeignSkip{children[w]}
+			c.falseCounts = true
 			if _, isFile := children[plain].(*parquet.FileRowGroup); !isFile {
 				ctx.Hist("multi-nested-inner-plain-member", fmt.Sprintf("%T", children[plain]))
 			}
@@ -1978,6 +2090,7 @@ func c11Build(ctx *core.Ctx, env *c11Env, e *gen.Entry, r *rand.Rand, kind strin
 		case "multi-wrapper":
 			w := r.Intn(len(children))
 			children[w] = c11ForeignSkip{children[w]}
+			c.falseCounts = true
 			c.srcs = []*c11Source{{kind: kind, rg: parquet.MultiRowGroup(children...), leaves: children}}
 			c.srcDesc = fmt.Sprintf("MultiRowGroup of %d, child %d wrapped by a row-dropping foreign RowGroup", len(children), w)
 		default:
@@ -2201,6 +2314,102 @@ func c11DictLeaves(schema *parquet.Schema) (out [][]string) {
 	return
 }
 
+// c11BloomLeaves: the leaves a bloom filter can be configured on (not BOOLEAN), repeated ones apart
+func c11BloomLeaves(schema *parquet.Schema) (repeated, flat [][]string) {
+	for _, p := range schema.Columns() {
+		leaf, ok := schema.Lookup(p...)
+		if !ok || leaf.Node.Type().Kind() == parquet.Boolean {
+			continue
+		}
+		if leaf.MaxRepetitionLevel > 0 {
+			repeated = append(repeated, p)
+		} else {
+			flat = append(flat, p)
+		}
+	}
+	return
+}
+
+// c11SetBloom returns cfg with its bloom filter settings replaced (later options override earlier ones)
+func c11SetBloom(cfg *c11Cfg, paths [][]string, bpv uint, comp int, note string) *c11Cfg {
+	nb := *cfg
+	nb.Bloom = map[string]uint{}
+	var filters []parquet.BloomFilterColumn
+	var names []string
+	for _, p := range paths {
+		nb.Bloom[strings.Join(p, ".")] = bpv
+		filters = append(filters, parquet.SplitBlockFilter(bpv, p...))
+		names = append(names, strings.Join(p, "."))
+	}
+	nb.Opts = append(append([]parquet.WriterOption{}, cfg.Opts...), parquet.BloomFilters(filters...))
+	nb.BloomGzip = comp == 2
+	switch comp { // 0: BloomFilterCompression left nil
+	case 1:
+		nb.Opts = append(nb.Opts, parquet.BloomFilterCompression(&parquet.Uncompressed))
+	case 2:
+		nb.Opts = append(nb.Opts, parquet.BloomFilterCompression(&parquet.Gzip))
+	}
+	nb.Desc = cfg.Desc + fmt.Sprintf(" %sbloom:=%d@%s bloomcodec:=%s", note, bpv, strings.Join(names, "+"), []string{"unset", "uncompressed", "gzip"}[comp])
+	return &nb
+}
+
+// c11BloomOpt: source and destination both build bloom filters on the same leaves (a repeated one
+// two times in three when the type has any); the axes are the bits per value, the codec of the
+// filter sections on either side (unset / uncompressed / gzip), the page codec (so that the filter
+// codec equals, and differs from, the page codec of the source), and MaxRowsPerRowGroup large enough
+// for every segment of the source to be packed into one row group.
+func c11BloomOpt(rb *rand.Rand, schema *parquet.Schema) *c11BuildOpt {
+	repeated, flat := c11BloomLeaves(schema)
+	if len(repeated)+len(flat) == 0 {
+		return nil
+	}
+	var paths [][]string
+	if len(repeated) > 0 && (len(flat) == 0 || rb.Intn(3) > 0) {
+		paths = append(paths, repeated[rb.Intn(len(repeated))])
+		if len(flat) > 0 && rb.Intn(3) == 0 {
+			paths = append(paths, flat[rb.Intn(len(flat))])
+		}
+	} else {
+		paths = append(paths, flat[rb.Intn(len(flat))])
+	}
+	bpv := []uint{1, 8, 10, 16}[rb.Intn(4)]
+	compA := []int{0, 0, 1, 2}[rb.Intn(4)]
+	pageCodec := []string{"", "", "gzip", "gzip", "none", "snappy"}[rb.Intn(6)]
+	return &c11BuildOpt{
+		views: true,
+		tweakA: func(a *c11Cfg) {
+			na := c11SetBloom(a, paths, bpv, compA, "")
+			if pageCodec != "" {
+				na.Opts = append(na.Opts, parquet.Compression(gen.Codecs[pageCodec]))
+				na.Desc += " codec:=" + pageCodec
+			}
+			if a.MaxRows > 0 && rb.Intn(2) == 0 {
+				na.MaxRows = 0
+				na.Opts = append(na.Opts, parquet.MaxRowsPerRowGroup(1<<40))
+				na.Desc += " maxrows:=unbounded"
+			}
+			*a = *na
+		},
+		makeB: func(r *rand.Rand, a *c11Cfg) *c11Cfg {
+			var b *c11Cfg
+			switch r.Intn(4) {
+			case 0: // another bits-per-value figure
+				b = c11SetBloom(a, paths, []uint{1, 8, 10, 16}[r.Intn(4)], compA, "| like-A ")
+			case 1: // drawn independently, same filter columns
+				b = c11SetBloom(c11RandCfg(r, schema), paths, bpv, r.Intn(3), "")
+			default: // only the codec of the filter sections re-drawn
+				b = c11SetBloom(a, paths, bpv, r.Intn(3), "| like-A ")
+			}
+			if b.MaxRows > 0 && r.Intn(2) == 0 {
+				b.MaxRows = 0
+				b.Opts = append(b.Opts, parquet.MaxRowsPerRowGroup(1<<40))
+				b.Desc += " maxrows:=unbounded"
+			}
+			return b
+		},
+	}
+}
+
 // c11FallbackBloom turns the destination of a built case into one whose dictionary-encoded column
 // `path` carries a bloom filter and overflows its dictionary in the middle of the chunk (small
 // DictionaryMaxBytes, small pages): the filter is pre-sized by WriteRowGroup and must contain the
@@ -2255,7 +2464,7 @@ func c11F9(ctx *core.Ctx, env *c11Env, d interface {
 }
 
 func RunC11(ctx *core.Ctx) {
-	ctx.SetRule("catalogue struct types x random rows x source configuration A x destination configuration B (page version, codec, page buffer, MaxRowsPerRowGroup, dictionary limit, DataPageStatistics on/off, SkipPageStatistics, SkipPageBounds, deprecated statistics, ColumnIndexSizeLimit 1..64, default encodings, bloom filters; B either drawn independently or A with one axis changed) x source kind {file row groups, Buffer/GenericBuffer, row-range views, MultiRowGroup (files, views, buffers, foreign children), MergeRowGroups unsorted / sorted / dropping duplicates, dedup wrapper, ConvertRowGroup, foreign RowGroup, row-dropping foreign RowGroup, MultiRowGroup over a row-dropping child, MergeRowGroups of 2-4 disjoint sorted files/buffers (packed segments; one in four dropping duplicated rows) with MaxRowsPerRowGroup around the total} x destination writer already buffering rows from WriteRows (one case in three, always for packed merges); destination writer Reset onto a fresh buffer and handed the same rows and row groups once more (one case in four, always when chunks were spliced: all oracles on the second output, counters repeat, source file metadata unchanged); nested MultiRowGroups mixing file and wrapper members with MaxRowsPerRowGroup below every segment; deferred bloom filter buffers; sources of 600/1030 rows (repeated columns beyond the 1024-value re-encode batches); oracle on the output: readable row by row and accepted by the C02 Lean spec reader (file.check), rows of (nested) multi row groups = members' Rows() in order, rows/order, settings, every row group <= MaxRowsPerRowGroup, configured bloom filters contain every stored value; non-trivial = at least 2 rows and A differs from B")
+	ctx.SetRule("catalogue struct types x random rows x source configuration A x destination configuration B (page version, codec, page buffer, MaxRowsPerRowGroup, dictionary limit, DataPageStatistics on/off, SkipPageStatistics, SkipPageBounds, deprecated statistics, ColumnIndexSizeLimit 1..64, default encodings, bloom filters; B either drawn independently or A with one axis changed) x source kind {file row groups, Buffer/GenericBuffer, row-range views, MultiRowGroup (files, views, buffers, foreign children), MergeRowGroups unsorted / sorted / dropping duplicates, dedup wrapper, ConvertRowGroup, foreign RowGroup, row-dropping foreign RowGroup, MultiRowGroup over a row-dropping child, MergeRowGroups of 2-4 disjoint sorted files/buffers (packed segments; one in four dropping duplicated rows) with MaxRowsPerRowGroup around the total} x destination writer already buffering rows from WriteRows (one case in three, always for packed merges); destination writer Reset onto a fresh buffer and handed the same rows and row groups once more (one case in four, always when chunks were spliced: all oracles on the second output, counters repeat, source file metadata unchanged); nested MultiRowGroups mixing file and wrapper members with MaxRowsPerRowGroup below every segment; deferred bloom filter buffers; bloom filter settings on both sides (stream c11-bloom: bits per value, BloomFilterCompression unset / uncompressed / gzip against page codecs gzip / none / snappy, filters on repeated leaves, half of the row groups of a MultiRowGroup handed over as two row-range views next to whole row groups, MaxRowsPerRowGroup unbounded so that views and whole row groups are packed together); sources of 600/1030 rows (repeated columns beyond the 1024-value re-encode batches); oracle on the output: readable row by row and accepted by the C02 Lean spec reader (file.check), rows of (nested) multi row groups = members' Rows() in order, rows/order, settings, every row group <= MaxRowsPerRowGroup, configured bloom filters contain every stored value, have the bitset size their bits-per-value figure prescribes for the dictionary entries / values of their chunk (or the size the row path gives a chunk of the same shape; not judged under a row-dropping harness wrapper, whose value counts are false) and are stored under the configured filter codec; non-trivial = at least 2 rows and A differs from B")
 	// fixed case first (corpus)
 	{
 		env := &c11Env{chunkOf: map[*parquet.FileColumnChunk]*c11Chunk{}}
@@ -2402,6 +2611,38 @@ func RunC11(ctx *core.Ctx) {
 						if c == nil {
 							continue
 						}
+						if d == nil {
+							c11Run(ctx, env, nil, c, false)
+						} else {
+							c11Run(ctx, env, d, c, false)
+						}
+					}
+				}
+			}
+			// bloom filter settings: bits per value and filter codec on both sides, filter codec against
+			// page codec, range views packed with whole row groups (the settings oracle's bloom clauses)
+			{
+				rb := ctx.Rand("c11-bloom/" + e.Name)
+				for _, kind := range []string{"file", "range", "multi", "merged-packed", "buffer"} {
+					for k := 0; k < ctx.Scale(2, 8); k++ {
+						opt := c11BloomOpt(rb, e.Schema)
+						if opt == nil {
+							continue
+						}
+						env := &c11Env{chunkOf: map[*parquet.FileColumnChunk]*c11Chunk{}}
+						var c *c11Case
+						func() {
+							defer func() {
+								if rec := recover(); rec != nil {
+									ctx.Fail("L1", "panic-building-source kind="+kind, fmt.Sprintf("building the source row group panicked: %v", rec), map[string]any{"type": e.Name, "kind": kind})
+								}
+							}()
+							c = c11Build(ctx, env, e, rb, kind, []int{9, 33, 100, 257, 600}[rb.Intn(5)], opt)
+						}()
+						if c == nil {
+							continue
+						}
+						ctx.Hist("bloom-settings-axis", fmt.Sprintf("kind=%s source-gzip=%v destination-gzip=%v", kind, c.a.BloomGzip, c.b.BloomGzip))
 						if d == nil {
 							c11Run(ctx, env, nil, c, false)
 						} else {
